@@ -228,6 +228,7 @@ impl Property for C15 {
             canonical_policy: false,
             benign: true,
             faults: vec![],
+            original_btor2: None,
         };
         // clean twin
         let clean = base.execute(false);
